@@ -1,25 +1,39 @@
 #!/bin/bash
-# tools/sweep.sh [quick|thorough]  -- runs every registered check on the unchanged tree, then every hand mutant and every seed
-# against the property named in its file name; writes mutants/RESULTS.txt.  Foreground only; /repo must be clean.
+# tools/sweep.sh [quick|thorough]  -- runs every registered check on the unchanged tree (/repo), then every hand mutant and every
+# seed against the property named in its file name; writes mutants/RESULTS.txt.
+# Mutants and seeds are applied to a scratch worktree of /repo (outside /repo and /verif, removed at the end) and the checks
+# are pointed at it with PYREX_SRC, so /repo itself is never modified.  A seed whose meta.json lists another detecting check
+# (detected_by) is run against that check as well.
 tier="${1:-quick}"
 cd /verif || exit 2
 if [ -n "$(git -C /repo status --porcelain -- pyrex)" ]; then echo "repo not clean"; exit 2; fi
+W=$(mktemp -d /tmp/sweepwt.XXXXXX); rmdir "$W"
+git -C /repo worktree add -q --detach "$W" HEAD || exit 2
+trap 'git -C /repo worktree remove --force "$W" 2>/dev/null; git -C /repo worktree prune' EXIT
 out=mutants/RESULTS.txt; : > $out
 echo "== unchanged tree ($tier) ==" | tee -a $out
 for p in $(seq -f "C%02g" 1 20); do
   s=$(date +%s); o="$(./check $p --tier $tier 2>&1)"; rc=$?; e=$(( $(date +%s) - s ))
   echo "$p exit=$rc ${e}s known=$(echo "$o" | grep -c '^KNOWN-FINDING') :: $(echo "$o" | tail -1 | cut -c1-160)" | tee -a $out
 done
+run_one() {   # <patch> <label> <PID>
+  git -C "$W" checkout -q -- . ; 
+  if ! git -C "$W" apply "$1" 2>/dev/null; then echo "STALE $2" | tee -a $out; return; fi
+  o="$(PYREX_SRC="$W" timeout 1800 ./check "$3" --tier quick 2>&1)"; rc=$?
+  first="$(echo "$o" | grep -m1 -B1 '^VIOLATION' | head -1 | cut -c1-180)"
+  echo "MUTANT $2 check=$3 exit=$rc violations_lines=$(echo "$o" | grep -c '^VIOLATION') :: $first" | tee -a $out
+  git -C "$W" checkout -q -- .
+}
 echo "== hand mutants (quick) ==" | tee -a $out
 for m in mutants/*.diff; do
   p=$(basename $m | cut -c1-3 | tr 'c' 'C')
-  if ! git -C /repo apply --check "$PWD/$m" 2>/dev/null; then echo "STALE $m" | tee -a $out; continue; fi
-  timeout 1500 tools/run_mutant.sh $m $p 2>&1 | grep '^MUTANT' | cut -c1-260 | tee -a $out
+  run_one "$PWD/$m" "$(basename $m)" $p
 done
 echo "== seeds (quick) ==" | tee -a $out
 for d in seeded/*/; do
   p=$(basename $d | cut -c1-3 | tr 'c' 'C')
-  if ! git -C /repo apply --check "$PWD/$d/patch.diff" 2>/dev/null; then echo "STALE $d" | tee -a $out; continue; fi
-  timeout 1500 tools/run_mutant.sh $d/patch.diff $p 2>&1 | grep '^MUTANT' | sed "s|patch.diff|$(basename $d)|" | cut -c1-260 | tee -a $out
+  pids=$(/venv/bin/python -c "import json,sys; m=json.load(open('$d/meta.json')); print(' '.join(dict.fromkeys(['$p']+[x for x in m.get('detected_by',[])])))" 2>/dev/null || echo $p)
+  for q in $pids; do run_one "$PWD/$d/patch.diff" "$(basename $d)" $q; done
 done
-git -C /repo status --porcelain -- pyrex | head -3
+echo "== summary ==" | tee -a $out
+echo "runs=$(grep -c '^MUTANT' $out) detected=$(grep -c '^MUTANT.*exit=1' $out) missed=$(grep '^MUTANT' $out | grep -vc 'exit=1') stale=$(grep -c '^STALE' $out)" | tee -a $out
